@@ -242,7 +242,7 @@ Qed.
 
 Theorem run_carbon_deficit_declined t tmsg ins rows st : run OR db ban fuel t tmsg ins = Done (rows, st) ->
   Forall2 (fun s r => carbon_of OR s = CReactants -> (forall m ru, impute OR s = ImpOk m ru -> carbon_of OR s <> CReactants) -> solved r = false)
-          (admitted OR ins) rows.
+          (kept_inputs OR ins) rows.
 Proof.
   intros H. pose proof (run_rows_are_alone_results OR db ban fuel t tmsg ins rows st H) as A.
   eapply Forall2_impl; [|exact A]. intros s r [r1 [A1 E]] CD HI. cbv beta.
